@@ -393,6 +393,50 @@ fn case(cx: &mut CaseCtx, input: Input) -> CaseResult {
     let CompilationState { ast, diagnostics, files: sfiles } = slicec::compile_from_options(&options);
     let diags = diagnostics.into_updated(&ast, &sfiles, &options);
     let expected = expectations(&diags);
+    // Two expectations that do not come from the implementation's own list.
+    // (a) what the command line suppresses: a lint named by -A (any case) or covered by All is not shown
+    for e in expected.iter().filter(|e| e.level == "warning") {
+        let named = allow.iter().any(|a| a.eq_ignore_ascii_case("All") || a.eq_ignore_ascii_case(&e.code));
+        check!(
+            !named,
+            format!("suppressed-on-command-line-but-shown/{}", e.code),
+            "-A {allow:?} names {} ({:?}, span {:?}), yet it is still a warning",
+            e.code,
+            e.message,
+            e.span
+        );
+    }
+    // (b) the order of recording: files are parsed in the order given, each from top to bottom, so the
+    // diagnostics of the parsing phase (syntax errors, malformed doc comments) come file by file and
+    // in source order within a file
+    {
+        let file_rank = |name: &str| sources.iter().position(|s| s == name || s.trim_start_matches("./") == name.trim_start_matches("./"));
+        let mut last: Option<(usize, usize, usize)> = None;
+        let mut parse_phase = 0;
+        for e in expected.iter().filter(|e| e.code == "MalformedDocComment" || e.code == "E002") {
+            let Some(sp) = &e.span else { continue };
+            let Some(rank) = file_rank(&sp.4) else { continue };
+            let here = (rank, sp.0, sp.1);
+            parse_phase += 1;
+            if let Some(prev) = last {
+                check!(
+                    prev <= here,
+                    "recording-order/parse-phase",
+                    "diagnostics of the parsing phase are out of order: {} at file #{} {}:{} comes after file #{} {}:{}\n sources {sources:?}\n list {:?}",
+                    e.code,
+                    here.0,
+                    here.1,
+                    here.2,
+                    prev.0,
+                    prev.1,
+                    prev.2,
+                    expected.iter().map(|e| (e.code.as_str(), e.span.as_ref().map(|s| (s.4.as_str(), s.0, s.1)))).collect::<Vec<_>>()
+                );
+            }
+            last = Some(here);
+        }
+        cx.label_if(parse_phase >= 3 && files.len() >= 2, "parse-phase-diagnostics-in-several-files");
+    }
     let n_visible = expected.iter().filter(|e| e.level != "allowed").count();
     cx.nontrivial = n_visible >= 2 || expected.iter().any(|e| e.message.contains('"') || e.message.contains('\\') || !e.message.is_ascii());
     cx.label_if(expected.iter().any(|e| e.span.is_none() && e.level != "allowed"), "span-less-diagnostic");
